@@ -33,7 +33,10 @@ def finish(ctx):
 
 
 def histories(maxlen, alphabet=('close', 'exit', 'exit_exc')):
-    """exit = leaving the with-block normally, exit_exc = leaving it through an exception raised inside the block."""
+    """
+    exit = leaving the with-block normally, exit_exc = leaving it through an Exception raised inside the block,
+    exit_base = leaving it through a BaseException that is not an Exception (SystemExit, KeyboardInterrupt, GeneratorExit).
+    """
     for n in range(1, maxlen + 1):
         for h in itertools.product(alphabet, repeat=n):
             yield list(h)
@@ -44,17 +47,23 @@ def cases(ctx):
     i = 0
     n = 0
     hs = list(histories(maxlen))
+    hs += [h for h in histories(3 if ctx.tier == 'quick' else 4, ('close', 'exit', 'exit_exc', 'exit_base')) if 'exit_base' in h]
     if ctx.tier != 'quick':
         hs += [h for h in histories(6, ('close', 'exit')) if len(h) == 6]
     for h in hs:
-        for writer in ('VbsWriter', 'IpmWriter'):
-            for fmt in ('vbs', '1014'):
-                for fk in ('bytesio', 'realfile'):
-                    for rs in RECORD_SETS:
-                        if ctx.mine(i):
-                            yield {'history': h, 'writer': writer, 'fmt': fmt, 'file': fk, 'records': rs}
-                        i += 1
-                        n += 1
+        # two ways of turning a history into code: every with-block entered before the first finalisation (nested), or
+        # each exit its own with-block entered when its turn comes (sequential: 'w.close(); with w: pass')
+        for shape in ('nested', 'sequential'):
+            if shape == 'sequential' and not any(t.startswith('exit') for t in h):
+                continue
+            for writer in ('VbsWriter', 'IpmWriter'):
+                for fmt in ('vbs', '1014'):
+                    for fk in ('bytesio', 'realfile'):
+                        for rs in (RECORD_SETS if shape == 'nested' else ('none', 'three', 'p1012', 'mixed20')):
+                            if ctx.mine(i):
+                                yield {'history': h, 'writer': writer, 'fmt': fmt, 'file': fk, 'records': rs, 'shape': shape}
+                            i += 1
+                            n += 1
     if ctx.shard == 0:
         ctx.exhaustive_subspace('all finalisation histories of length 1..%d x writers x formats x file kinds x record sets'
                                 % maxlen, n)
@@ -131,15 +140,56 @@ class Driver:
                     pos += 1
                 if tokens[pos] == 'exit_exc':
                     raise _Leave()
+                if tokens[pos] == 'exit_base':
+                    raise _LeaveBase(0)
             self.events.append(('exit', None))
         except _Leave:
             self.events.append(('exit_exc', None))
+        except _LeaveBase:
+            self.events.append(('exit_base', None))
         except Exception as ex:  # noqa
             self.events.append((tokens[pos] if pos < len(tokens) else 'exit', type(ex).__name__))
         self.snapshots.append(self.snapshot())
         return pos + 1
 
+    def play_sequential(self):
+        """Each exit token is a with-block of its own, entered when its turn comes; the records are written first thing."""
+        tokens = list(self.case['history'])
+        written = False
+        for tok in tokens:
+            if tok == 'close':
+                if not written:
+                    for item in self.items:
+                        self.w.write(item)
+                    written = True
+                self.do_close()
+                continue
+            try:
+                with self.w:
+                    if not written:
+                        for item in self.items:
+                            self.w.write(item)
+                        written = True
+                    if tok == 'exit_exc':
+                        raise _Leave()
+                    if tok == 'exit_base':
+                        raise _LeaveBase(0)
+                self.events.append(('exit', None))
+            except _Leave:
+                self.events.append(('exit_exc', None))
+            except _LeaveBase:
+                self.events.append(('exit_base', None))
+            except Exception as ex:  # noqa
+                self.events.append((tok, type(ex).__name__))
+            self.snapshots.append(self.snapshot())
+        final = self.snapshot()
+        if self.path:
+            self.f.close()
+        return final
+
     def play(self):
+        if self.case.get('shape') == 'sequential':
+            return self.play_sequential()
         tokens = list(self.case['history'])
         k = sum(1 for t in tokens if t.startswith('exit'))
         pos = 0
@@ -159,6 +209,10 @@ class Driver:
 
 class _Leave(Exception):
     """Raised inside a with-block by the driver to leave it through an exception."""
+
+
+class _LeaveBase(SystemExit):
+    """...through a BaseException that is not an Exception (what sys.exit() inside the block raises)."""
 
 
 def judge(ctx, case):
@@ -214,7 +268,8 @@ def judge(ctx, case):
         ctx.violation('file_does_not_hold_the_records_written:real_reader',
                       {'case': case, 'detail': dict(detail, want=len(want), got=len(got))})
     ctx.case_done(nontrivial=True, enumerated=True)
-    ctx.seen('history shapes', ''.join('x' if t == 'exit_exc' else t[0] for t in case['history']))
+    ctx.seen('history shapes', ''.join({'exit_exc': 'x', 'exit_base': 'b'}.get(t, t[0]) for t in case['history']))
+    ctx.seen('realisations', case.get('shape', 'nested'))
     if len(case['history']) == 3 and case['records'] == 'three' and case['file'] == 'bytesio':
         ctx.sample(dict(case, events=d.events, file_len=len(final)))
 
@@ -233,7 +288,9 @@ def canaries(ctx):
 def require(m):
     reasons = []
     shapes = set(m['classes'].get('history shapes', ()))
-    for need in ('c', 'e', 'x', 'ce', 'ec', 'cc', 'ee', 'cx', 'xc', 'ece', 'cxc'):
+    if set(m['classes'].get('realisations', ())) != {'nested', 'sequential'}:
+        reasons.append('both realisations (nested / sequential with-blocks) not driven')
+    for need in ('c', 'e', 'x', 'b', 'ce', 'ec', 'cc', 'ee', 'cx', 'xc', 'cb', 'bc', 'ece', 'cxc'):
         if need not in shapes:
             reasons.append('history %s never played' % need)
     return reasons
